@@ -38,6 +38,35 @@ CLAIMED['C17'] = dict(
          '<=12 clock readings; topic||seed concatenation treated as injective; OrbitDBMessageMarshaler not included.',
     design='6/C17')
 
+TA = ('Trusted: go/ssa lowering, wesym interpreter, the crypto/protobuf/datastore/keystore contracts (free term algebra: constructors injective and '
+      'disjoint; EUF-CMA / INT-CTXT only for keys a harness declares honest / secret), z3. Outside: the primitives, protobuf wire malleability, ')
+CLAIMED['C01'] = dict(
+    text='Symbolic execution of the real seal/open code over a Dolev-Yao term algebra: round trip with a free sender counter and free payload for all '
+         'three group types; forgery by an insider (adversarial envelope = free term; only the device signing key honest); forgery by an outsider '
+         '(group secret INT-CTXT); other-group rejection. The solver synthesises attacks: it produced the insider re-seal at another counter '
+         '(known finding C01.A2, confirmed natively).',
+    note=TA + 'counter wrap at 2^64, window 2, <=2 honest messages.', design='6/C01')
+CLAIMED['C02'] = dict(
+    text='Bounded symbolic execution of the receiver ratchet against the window formula c < k <= c+N+opened: every arrival is a free index into '
+         'the sealed messages (all permutations with repetitions), messages sealed before registration, re-delivery of the same and of an older '
+         'announcement; payload equality on every successful open.',
+    note=TA + 'grid of (window 1..3, pre 0..1, n<=4, L<=4) as listed in the evidence; one sender; defined CIDs.', design='6/C02')
+CLAIMED['C05'] = dict(
+    text='Symbolic execution of the announcement path (GetShareableChainKey, encrypt/decryptDeviceChainKey, groupIDToNonce, RegisterChainKey) over the '
+         'term algebra: exactness at an arbitrary sender state, every wrong member/group/claimed-sender combination (3 principals, 2 groups with the '
+         'same keys), INT-CTXT tamper rejection. Cryptographic half of the property only.',
+    note=TA + 'the distribution half (every device holds every key at quiescence, any join order/delivery plan) needs OrbitDB event delivery and is NOT claimed.',
+    design='6/C05')
+CLAIMED['C11'] = dict(
+    text='Symbolic execution of the key-derivation code with account keys as arbitrary distinct atoms and X25519/HKDF as free (symmetric) functions: '
+         'contact-group symmetry, cross-pair independence, cache vs recompute, same member key / different device keys on two devices of an account '
+         'after export/import, all import refusals with free key blobs, refused import writes nothing.',
+    note=TA + 'statistical independence of keys (only structural dependence is visible).', design='6/C11')
+CLAIMED['C14'] = dict(
+    text='Symbolic execution of the push seal/open path together with the log path: every order of push and log delivery of the same message, '
+         'counters inside and beyond the key/reference window, AlreadyReceived truthfulness, non-interference both ways, INT-CTXT tamper rejection.',
+    note=TA + 'window N=2, reference window R=1, one group and sender, counters 1..4.', design='6/C14')
+
 NOT_APPLICABLE = {}
 ALL = ['C%02d' % i for i in range(1, 21)]
 PENDING_REASON = 'no solver-based check registered yet for this property in the current state of /verif (see DESIGN.md section 9)'
